@@ -148,7 +148,8 @@ def apply_cfg(b, c, fresh=True):
     net.sasl.username.setValue(c['sasluser'])
     net.sasl.password.setValue(c['saslpass'])
     net.sasl.ecdsa_key.setValue({'': '', 'ok': b.keyfile, 'bad': os.path.join(b.dir, 'no-such-key.pem'),
-                                 'dir': b.keydir, 'garbage': b.keygarbage}[c['ecdsakey']])
+                                 'dir': b.keydir, 'garbage': b.keygarbage,
+                                 'tilde': '~vt-no-such-user/ecdsa.pem', 'home': '~/vt-no-such-dir/ecdsa.pem'}[c['ecdsakey']])
     net.sasl.mechanisms.setValue(list(c['mechs']))
     net.sasl.required.setValue(bool(c['required']))
     net.certfile.setValue('/nonexistent/cert.pem' if c['certfile'] else '')
@@ -1183,8 +1184,10 @@ def safety_oracle(ops, obs, cfg=None):
                 answered |= set(words)
                 if words and o.exc == '-' and not o.calls and o.fsm == 'INIT_CAP_NEGOTIATION' and o.req <= answered and not prev.auth:
                     bad.append(('progress', 'every requested capability %r has been answered by the server, but %r ended the negotiation neither by CAP END nor by AUTHENTICATE nor by an abort' % (sorted(o.req), trigger)))
-            if o.exc == 'TypeError':
-                bad.append(('progress', 'the handler of %r raised TypeError (state %s, sent %r)' % (trigger, o.fsm, [(m.command,) + tuple(m.args) for m in o.msgs])))
+            if o.exc not in ('-', 'ValueError', 'AssertionError', 'IndexError', 'AttributeError', 'Error'):
+                # the handlers reject malformed input by ValueError (state check), AssertionError, IndexError, AttributeError (908)
+                # and binascii.Error; anything else is an error path the code does not handle
+                bad.append(('progress', 'the handler of %r raised %s (state %s, sent %r)' % (trigger, o.exc, o.fsm, [(m.command,) + tuple(m.args) for m in o.msgs])))
             # the credentials of one answer end with a line shorter than the chunk size (or `+`): the server
             # takes a line of exactly AUTHENTICATE_CHUNK_SIZE characters as "more follows"
             pay = [m.args[0] for m in o.msgs if m.command == 'AUTHENTICATE' and m.args and not is_mech(m.args[0])]
@@ -1232,9 +1235,9 @@ def gen_cfg(r, stream):
     elif k == 6:
         c.update(mechs=['external', 'plain'], certfile=r.random() < 0.7, sasluser='u', saslpass='p')
     elif k == 7:
-        c.update(mechs=['ecdsa-nist256p-challenge', 'plain'], sasluser=r.choice(['u', 'u', 'n' * 300, 'n' * 299, 'n' * 600]), saslpass=r.choice(['', 'p']), ecdsakey=r.choice(['ok', 'ok', 'bad', 'dir', 'garbage', '']))
+        c.update(mechs=['ecdsa-nist256p-challenge', 'plain'], sasluser=r.choice(['u', 'u', 'n' * 300, 'n' * 299, 'n' * 600]), saslpass=r.choice(['', 'p']), ecdsakey=r.choice(['ok', 'ok', 'bad', 'dir', 'garbage', 'tilde', 'home', '']))
     elif k == 8:
-        c.update(mechs=['ecdsa-nist256p-challenge', 'external', 'plain'], sasluser='u', saslpass='p', ecdsakey=r.choice(['ok', 'bad', 'dir', 'garbage']), certfile=True)
+        c.update(mechs=['ecdsa-nist256p-challenge', 'external', 'plain'], sasluser='u', saslpass='p', ecdsakey=r.choice(['ok', 'bad', 'dir', 'garbage', 'tilde', 'home']), certfile=True)
     else:
         c.update(mechs=r.choice([['scram-sha-256', 'plain'], ['scram-sha-256'], ['scram-sha-512', 'scram-sha-1', 'plain'],
                                  ['scram-sha-256-plus', 'scram-sha-256'], ['SCRAM-SHA-256', 'scram-SHA-1', 'plain'], ['scram-', 'scram-sha-1-plus']]),
